@@ -31,5 +31,16 @@ CHECKS["C13"] = dict(
          "enumerated by TLC (sanity invariants StopIsPrefix, OpWins, AggregateExact) and replayed on generic/network SendCommands, SendCommandsFromFile, SendConfigs, "
          "SendConfigsFromFile and SendConfig; Failed flags, error strings, aggregate members, response counts, collapsed result and the lines the device received are compared.",
     note="Trusted: TLC, the scripted device. Exhaustive over lists of <= 3 (quick) / 4 (thorough) outputs from 5-7 templates x 3 driver lists x 3 operation lists x stop.")
+CHECKS["C02"] = dict(
+    category="model_checking", design_ref="DESIGN.md §5 C02, §11",
+    technique="TLA+/TLC: strict and lenient RFC 6242 decoders as TLA+ operators; TLC enumerates every byte-class string up to a bound and every single edit of every legal "
+              "frame with its class and decoded data, replayed on response.NetconfResponse.Record; generated replies (payload, chunk partition, version) replayed through the whole NETCONF driver",
+    text="NcFraming.tla defines Strict (the RFC grammar), Lenient (most permissive sensible reading) and Class = legal / malformed / grey; TLC checks encoder/decoder round trip for every "
+         "payload and partition and enumerates all raw strings <= 6-7 symbols and all single-symbol edits (delete, insert, replace, truncate) of all legal frames of payloads <= 3-4. "
+         "The harness feeds each to the public Record with poisoned spare capacity: no panic, no byte that is not in the input, legal => exact payload and not failed, malformed => failed. "
+         "NcReplyScn.tla generates replies (multi-byte runes, '#', digits, newlines, rpc-error markers cut by chunk boundaries, XML declaration) that go through a server model and "
+         "netconf.Driver.Get under several read segmentations; Result and Failed are compared with the prediction.",
+    note="Trusted: TLC, the server model's framing. Byte classes limit chunk sizes to <= 22 in the exhaustive tier. Two genuine defects were repaired (fix: commits 9d3f9ee, 28b8a29); "
+         "the read loop's '^##$' delimiter weakness is a recorded known finding.")
 PENDING_REASON = "check not built yet in this session (work in progress; see DESIGN.md §5 for the planned TLA+ specification and binding)"
 NOT_APPLICABLE = {}
